@@ -1668,7 +1668,7 @@ func resolveIndex(v, index reflect.Value, indexAsStr string) (reflect.Value, err
 			return reflect.Value{}, fmt.Errorf("can't use %s (%s) as key for map of type %s", indexAsStr, indexVal.Type(), v.Type())
 		}
 		index = indexVal.Convert(v.Type().Key()) // noop in most cases, but not expensive
-		return indirectEface(v.MapIndex(indexVal)), nil
+		return indirectEface(v.MapIndex(index)), nil
 	case reflect.Ptr:
 		etyp := v.Type().Elem()
 		if etyp.Kind() == reflect.Struct && indexIsStr {
